@@ -90,7 +90,7 @@ func NewApp(db *simdb.DB, pr Pruning, simNode *node.Node) (app *App, err error) 
 		}
 	}()
 	cdc := appCdc
-	bapp := baseapp.NewBaseApp("simapp", log.NewNopLogger(), db, auth.DefaultTxDecoder(cdc),
+	bapp := baseapp.NewBaseApp("simapp", simLogger{}, db, auth.DefaultTxDecoder(cdc),
 		baseapp.SetPruning(storeTypes.NewPruningOptions(pr.KeepRecent, pr.KeepEvery)))
 	bapp.SetAppVersion(AppVersion)
 	keys := sdk.NewKVStoreKeys(baseapp.MainStoreKey, auth.StoreKey, posTypes.StoreKey)
@@ -150,4 +150,23 @@ func NewSimNode() *node.Node {
 // It does not go through checkState, so observing cannot warm any cache.
 func (a *App) ReadCtx(header abci.Header) sdk.Context {
 	return sdk.NewContext(a.Store(), header, true, log.NewNopLogger()).WithAppVersion(AppVersion)
+}
+
+
+// simLogger is the application's log sink: it keeps nothing, but every line passes the simulator (a slow or
+// stalled sink is one of the places where a node loses time in the middle of a loop).
+type simLogger struct{}
+
+// logHook is set by the executor for the duration of one ABCI call of one replica.
+var logHook func()
+
+func (simLogger) Debug(msg string, keyvals ...interface{}) { hookLog() }
+func (simLogger) Info(msg string, keyvals ...interface{})  { hookLog() }
+func (simLogger) Error(msg string, keyvals ...interface{}) { hookLog() }
+func (l simLogger) With(keyvals ...interface{}) log.Logger { return l }
+
+func hookLog() {
+	if h := logHook; h != nil {
+		h()
+	}
 }
